@@ -126,11 +126,22 @@ def decode(decoder, data, info_only=False):
         return None, 'err %d' % err_code(e)
 
 
+def _bytes_as_latin1(o):
+    if isinstance(o, bytes):
+        return o.decode('latin-1')
+    raise TypeError(repr(o))
+
+
+def flat_json_text(msg):
+    """the flat JSON text of a decoded message (bytes as latin-1 text, as the command line writes them)"""
+    from pybufrkit.renderer import FlatJsonRenderer
+    return json.dumps(FlatJsonRenderer().render(msg), default=_bytes_as_latin1)
+
+
 def encode(encoder, msg):
     """re-encode a decoded message through its flat JSON form"""
-    from pybufrkit.renderer import FlatJsonRenderer
     try:
-        js = json.dumps(FlatJsonRenderer().render(msg))
+        js = flat_json_text(msg)
         out = encoder.process(js)
         return md5(out.serialized_bytes), out
     except Exception as e:
@@ -213,15 +224,26 @@ def reference(item):
     for kind in RENDER_KINDS + ('query',):
         out.update(in_child(kind_fn(kind)))
 
-    def enc():
-        res = {}
+    def flat_js():
         m3, e3 = decode(Decoder(), data)
+        return {'js': flat_json_text(m3)}
+    js = in_child(flat_js).get('js')
+
+    def enc():
+        # the encoder's reference: a process that has DECODED nothing (the flat JSON text comes from another process)
+        res = {}
         e = Encoder(compiled_template_cache_max=5)
-        dg, emsg = encode(e, m3)
+        try:
+            emsg = e.process(js)
+            dg = md5(emsg.serialized_bytes)
+        except Exception as ex:
+            dg, emsg = 'err %d' % err_code(ex), None
         res['encode'] = dg
+        # what the attempt left in the (so far empty) table-group cache: nothing when the tables could not be loaded
+        res['enc_tg_keys_after'] = tg_keys_now()
+        res['enc_ct_keys'] = ct_keys_of(e)
         if emsg is not None:
             res['enc_tg_key'] = tg_token(emsg.table_group_key)
-            res['enc_ct_keys'] = ct_keys_of(e)
         return res
     out.update(in_child(enc))
     return out
